@@ -206,6 +206,34 @@ def impl_shexc(ts, cfg, doc=None, timeout=10.0, extra_kw=None, output_format=Non
         signal.signal(signal.SIGALRM, old)
 
 
+def impl_other(ts, cfg, kind, timeout=10.0):
+    """SHACL output ('shacl') or profile_graph ('profile') of the real Shaper"""
+    from shexer.shaper import Shaper
+    from shexer.consts import SHACL_TURTLE
+    warnings.filterwarnings("ignore")
+    kw = shaper_kwargs(cfg)
+    k, m = cfg["thr"]
+    old = signal.signal(signal.SIGALRM, _alarm)
+    signal.setitimer(signal.ITIMER_REAL, timeout)
+    try:
+        sh = Shaper(raw_graph=nt_doc(ts), **kw)
+        if kind == "shacl":
+            text = sh.shex_graph(string_output=True, acceptance_threshold=(k / m), output_format=SHACL_TURTLE)
+        else:
+            text = sh.profile_graph(string_output=True)
+        return ("ok", text if isinstance(text, str) else repr(text))
+    except Hang:
+        return ("err", "Hang", "")
+    except Exception as e:  # noqa: BLE001
+        import traceback
+        frames = [f for f in traceback.extract_tb(e.__traceback__) if "/shexer/" in f.filename]
+        where = "%s:%d:%s" % (frames[-1].filename.split("/shexer/")[-1], frames[-1].lineno, frames[-1].name) if frames else ""
+        return ("err", type(e).__name__, where)
+    finally:
+        signal.setitimer(signal.ITIMER_REAL, 0)
+        signal.signal(signal.SIGALRM, old)
+
+
 # --------------------------------------------------------------------------
 # the model
 # --------------------------------------------------------------------------
